@@ -6,7 +6,9 @@ import (
 	"github.com/influxdata/telegraf/plugins/parsers/influx"
 	"github.com/metrico/qryn/writer/model"
 	customErrors "github.com/metrico/qryn/writer/utils/errors"
+	"io"
 	"regexp"
+	"strings"
 	"time"
 )
 
@@ -38,7 +40,9 @@ type influxDec struct {
 }
 
 func (e *influxDec) Decode() error {
-	parser := influx.NewStreamParser(e.ctx.bodyReader)
+	// telegraf's stream parser never returns when the input ends inside an escape of the measurement name
+	// (a body of just "\\" or "m\\"): terminate the last line, which changes nothing for any other input
+	parser := influx.NewStreamParser(io.MultiReader(e.ctx.bodyReader, strings.NewReader("\n")))
 	precision := e.ctx.ctx.Value("precision").(time.Duration)
 	parser.SetTimePrecision(precision)
 
